@@ -20,6 +20,7 @@ package main
 // run exactly once, within the bound; a later call fails as well.
 
 import (
+	"bytes"
 	"crypto/ecdsa"
 	"crypto/elliptic"
 	"crypto/rand"
@@ -53,6 +54,7 @@ type c11FaultConn struct {
 	rdFired int
 	wrDead  bool
 	wrErr   error
+	wrFails int // Writes refused since killWrite
 }
 
 func (c *c11FaultConn) Read(p []byte) (int, error) {
@@ -72,11 +74,20 @@ func (c *c11FaultConn) Read(p []byte) (int, error) {
 func (c *c11FaultConn) Write(p []byte) (int, error) {
 	c.mu.Lock()
 	dead, err := c.wrDead, c.wrErr
+	if dead {
+		c.wrFails++
+	}
 	c.mu.Unlock()
 	if dead {
 		return 0, err
 	}
 	return c.Conn.Write(p)
+}
+
+func (c *c11FaultConn) writeFailures() int {
+	c.mu.Lock()
+	defer c.mu.Unlock()
+	return c.wrFails
 }
 
 func (c *c11FaultConn) killRead(err error, once bool) {
@@ -100,6 +111,31 @@ type c11Link struct {
 	events  map[string]func()               // real loss events this transport can produce
 	wevents map[string]func() (then func()) // real events that make the client's Writes fail first
 	cleanup func()
+	peerR   io.Reader             // the peer's side of the connection: what the client writes ...
+	peerW   io.Writer             // ... and what it reads
+	peerDL  func(time.Time) error // SetReadDeadline of the peer's side
+	swDone  chan struct{}         // closed when the goroutine of swallow has ended
+}
+
+// swallow: the peer reads whatever the client writes and never answers.
+func (l *c11Link) swallow() {
+	l.swDone = make(chan struct{})
+	go func() { io.Copy(ioutil.Discard, l.peerR); close(l.swDone) }()
+}
+
+// stopSwallow: the peer stops reading (it is busy, or about to vanish); what the client writes from
+// now on stays in the transport (net.Pipe: the Write blocks until the peer closes, and then fails).
+func (l *c11Link) stopSwallow() {
+	if l.swDone == nil {
+		return
+	}
+	if err := l.peerDL(time.Now().Add(-time.Second)); err != nil {
+		return
+	}
+	select {
+	case <-l.swDone:
+	case <-time.After(time.Second):
+	}
 }
 
 var c11Cert struct {
@@ -126,6 +162,18 @@ func c11TLSCert() (tls.Certificate, error) {
 		c11Cert.cert = tls.Certificate{Certificate: [][]byte{der}, PrivateKey: key}
 	})
 	return c11Cert.cert, c11Cert.err
+}
+
+// c11CloseBounded: Close() of an endpoint at the end of a run.  It takes the handlers mutex; if the
+// run left that mutex held for ever (which the oracles of the run have reported) it must not take
+// the harness with it.
+func c11CloseBounded(ep net.EndPoint) {
+	done := make(chan struct{})
+	go func() { ep.Close(); close(done) }()
+	select {
+	case <-done:
+	case <-time.After(200 * time.Millisecond):
+	}
 }
 
 // c11SockPair: a connected pair over a listener of the given network.
@@ -188,8 +236,6 @@ func (t *c11Transports) close() {
 
 var c11TransportNames = []string{"netpipe", "unix", "tcp", "tls", "pipe"}
 
-func c11Swallow(r io.Reader) { go io.Copy(ioutil.Discard, r) }
-
 func (t *c11Transports) link(name string) (*c11Link, error) {
 	switch name {
 	case "pipe":
@@ -203,8 +249,8 @@ func (t *c11Transports) link(name string) (*c11Link, error) {
 			w1.Close()
 			return nil, err
 		}
-		c11Swallow(r2)
-		l := &c11Link{ep: net.NewEndPoint(net.PipeStream(r1, w2)), rawDL: r1.SetReadDeadline}
+		l := &c11Link{ep: net.NewEndPoint(net.PipeStream(r1, w2)), rawDL: r1.SetReadDeadline,
+			peerR: r2, peerW: w1, peerDL: r2.SetReadDeadline}
 		l.events = map[string]func(){
 			"peer-close":       func() { w1.Close(); r2.Close() },
 			"peer-close-write": func() { w1.Close() },
@@ -212,7 +258,7 @@ func (t *c11Transports) link(name string) (*c11Link, error) {
 		l.wevents = map[string]func() func(){
 			"peer-close-read": func() func() { r2.Close(); return func() { w1.Close() } }, // EPIPE, then EOF
 		}
-		l.cleanup = func() { w1.Close(); r2.Close(); l.ep.Close() }
+		l.cleanup = func() { w1.Close(); r2.Close(); c11CloseBounded(l.ep) }
 		return l, nil
 	case "netpipe", "unix", "tcp", "tls":
 		var cc, pc gonet.Conn
@@ -231,7 +277,7 @@ func (t *c11Transports) link(name string) (*c11Link, error) {
 		fc := &c11FaultConn{Conn: cc}
 		l := &c11Link{fc: fc, rawDL: cc.SetReadDeadline}
 		var top gonet.Conn = fc
-		peerTop := pc
+		var peerTop gonet.Conn = pc
 		l.events = map[string]func(){"peer-close": func() { pc.Close() }}
 		l.wevents = map[string]func() func(){}
 		if name == "tls" {
@@ -272,21 +318,65 @@ func (t *c11Transports) link(name string) (*c11Link, error) {
 			}
 			l.events["peer-reset"] = func() { tc.SetLinger(0); tc.Close() }
 		}
-		c11Swallow(peerTop)
+		l.peerR, l.peerW, l.peerDL = peerTop, peerTop, peerTop.SetReadDeadline
 		l.ep = net.ConnEndPoint(top)
-		l.cleanup = func() { pc.Close(); l.ep.Close(); cc.Close() }
+		l.cleanup = func() { pc.Close(); c11CloseBounded(l.ep); cc.Close() }
 		return l, nil
 	}
 	return nil, fmt.Errorf("unknown transport %s", name)
 }
 
+// c11BusyService: what makes the endpoint write on its own.  The endpoint of the client also
+// serves incoming calls (as the connections of a server, or a client that registered an object,
+// do) through a handler whose queue is full: "queue0" — MakeHandler with a queue nobody drains;
+// "queue10" — AddHandler (queue of 10 and a goroutine, what bus.NewContext-style consumers use) whose
+// consumer is stuck in the first message.  dispatch answers every further call itself, with an
+// Error message, from the reader goroutine and under the handlers mutex.
+const c11BusyServiceID = 7
+
+func c11BusyCall(k int) []byte {
+	msg := net.NewMessage(net.NewHeader(net.Call, c11BusyServiceID, 1, 3, uint32(9001+2*k)), []byte{byte(k)})
+	var buf bytes.Buffer
+	if err := msg.Write(&buf); err != nil {
+		panic(err)
+	}
+	return buf.Bytes()
+}
+
 // c11RealRun: callback + subscription + `pending` unanswered calls, then wfail (optional: the
-// Writes start failing; a call made then must return on its own), then fail (the loss).
-func c11RealRun(res *hx.Result, desc string, l *c11Link, pending int, wfail func(), fail func(), hang time.Duration) bool {
+// Writes start failing), then fail (the loss).  Between the two, what notices the failing Writes
+// first: without a busy service a call made then (it must return an error on its own); with one
+// (busy != ""), the endpoint itself — the peer sends calls to the busy service and the Error
+// replies of dispatch are the Writes that fail (with wfail == nil the peer has merely stopped
+// reading when it sends them, and fail is its disappearance).
+func c11RealRun(res *hx.Result, desc string, l *c11Link, pending int, busy string, wfail func(), fail func(), hang time.Duration) bool {
 	ok := true
 	bad := func(format string, a ...interface{}) {
 		res.Fail("c11-oracle", desc+": "+fmt.Sprintf(format, a...))
 		ok = false
+	}
+	incoming := 0
+	switch busy {
+	case "queue0":
+		l.ep.MakeHandler(func(h *net.Header) (bool, bool) { return h.Type == net.Call && h.Service == c11BusyServiceID, true },
+			make(chan *net.Message), nil)
+		incoming = 2
+	case "queue10":
+		stuck := make(chan struct{})
+		defer close(stuck)
+		l.ep.AddHandler(func(h *net.Header) (bool, bool) { return h.Type == net.Call && h.Service == c11BusyServiceID, true },
+			func(*net.Message) error { <-stuck; return nil }, nil)
+		incoming = 13 // one in the consumer, ten queued, two answered by dispatch
+	case "events":
+		// no service: the consumer that is blocked is the subscription of the client itself, which
+		// nobody reads before the loss; the peer sends more events than its goroutine and its queue
+		// hold (1 + 100): dispatch drops the others and goes on reading
+		incoming = c11QueueCap + 5
+	}
+	frame := c11BusyCall
+	if busy == "events" {
+		one := c11Frame("sub", 0, net.Event, 0) // (c11SubService, 1, 200): the subscription below
+		frame = func(int) []byte { return one }
 	}
 	cl := bus.NewClient(bus.NewContext(l.ep))
 	var cb int32
@@ -309,7 +399,41 @@ func c11RealRun(res *hx.Result, desc string, l *c11Link, pending int, wfail func
 		}(c)
 	}
 	time.Sleep(2 * time.Millisecond) // let the calls reach the wire (a call made after the loss must fail as well)
-	if wfail != nil {
+	if busy != "" {
+		if wfail != nil {
+			wfail()
+		} else if busy != "events" {
+			l.stopSwallow()
+		}
+		sent := make(chan error, 1)
+		go func() {
+			for k := 0; k < incoming; k++ {
+				if _, err := l.peerW.Write(frame(k)); err != nil {
+					sent <- err
+					return
+				}
+			}
+			sent <- nil
+		}()
+		// with a synchronous transport (net.Pipe) and a peer that does not read, the reader of the
+		// client blocks in the Write of its first reply and the peer in its next Write: that is the
+		// situation wanted, the peer vanishes from there
+		wait := 10 * time.Millisecond
+		if wfail != nil || busy == "events" {
+			wait = hang / 4
+		}
+		// (an endpoint may also close the connection as soon as one of its Writes fails: then the
+		// peer cannot send the rest, which is no failure; the loss and the oracles follow anyway)
+		select {
+		case <-sent:
+		case <-time.After(wait):
+		}
+		// let the reader reach the Write of its reply (with an injected failure: until it has failed)
+		end := time.Now().Add(20 * time.Millisecond)
+		for time.Now().Before(end) && !(l.fc != nil && wfail != nil && l.fc.writeFailures() > 0) {
+			time.Sleep(200 * time.Microsecond)
+		}
+	} else if wfail != nil {
 		wfail()
 		wr := make(chan error, 1)
 		go func() { _, err := cl.Call(nil, 1, 1, 998, []byte{1}); wr <- err }()
@@ -334,13 +458,26 @@ func c11RealRun(res *hx.Result, desc string, l *c11Link, pending int, wfail func
 		}
 	}
 	if ok {
-		select {
-		case _, open := <-ev:
-			if open {
-				bad("unexpected event")
+		expect := 0
+		if busy == "events" {
+			expect = incoming
+		}
+		end := time.After(hang)
+	drain:
+		for got := 0; ; got++ {
+			select {
+			case _, open := <-ev:
+				if !open {
+					break drain
+				}
+				if got >= expect {
+					bad("unexpected event")
+					break drain
+				}
+			case <-end:
+				bad("events channel not closed within %v of the loss", hang)
+				break drain
 			}
-		case <-time.After(hang):
-			bad("events channel not closed within %v of the loss", hang)
 		}
 	}
 	if ok {
@@ -376,22 +513,28 @@ func c11RealKinds(res *hx.Result, hang time.Duration, tier string) {
 	}
 	defer tr.close()
 	failed, runs, slots := 0, 0, 0
-	run := func(name, what string, mk func(l *c11Link) (wfail func(), fail func())) {
+	runB := func(name, what, busy string, mk func(l *c11Link) (wfail func(), fail func())) {
 		if failed >= 3 {
 			return // the violation is established; the remaining runs would only wait
 		}
 		pending := 1 + slots%3
 		slots++
 		desc := fmt.Sprintf("real transport=%s loss=%s pending=%d", name, what, pending)
+		if busy == "events" {
+			desc += " subscription-nobody-reads"
+		} else if busy != "" {
+			desc += " busy-service=" + busy
+		}
 		l, err := tr.link(name)
 		if err != nil {
 			res.Fail("c11-schedule", fmt.Sprintf("%s: cannot set the connection up: %v", desc, err))
 			failed++
 			return
 		}
+		l.swallow()
 		wfail, fail := mk(l)
 		if fail != nil {
-			if !c11RealRun(res, desc, l, pending, wfail, fail, hang) {
+			if !c11RealRun(res, desc, l, pending, busy, wfail, fail, hang) {
 				failed++
 			}
 			runs++
@@ -400,6 +543,8 @@ func c11RealKinds(res *hx.Result, hang time.Duration, tier string) {
 		}
 		l.cleanup()
 	}
+	run := func(name, what string, mk func(l *c11Link) (wfail func(), fail func())) { runB(name, what, "", mk) }
+	busyKinds := []string{"queue0", "queue10"}
 	reps := 1
 	if tier == "thorough" {
 		reps = 5
@@ -423,9 +568,44 @@ func c11RealKinds(res *hx.Result, hang time.Duration, tier string) {
 				var then func()
 				return func() { then = w() }, func() { then() }
 			})
+			// the endpoint is the first to write into the lost connection: a busy service and a peer
+			// that sends calls and vanishes without reading the answers (net.Pipe: the Write of the
+			// reply fails; sockets: it may still be accepted by the kernel), or closes its reading
+			// side first (pipe://: EPIPE)
+			for bi, b := range busyKinds {
+				for _, e := range []string{"peer-close", "peer-close-raw", "peer-reset"} {
+					e := e
+					runB(name, "calls-then-"+e, b, func(l *c11Link) (func(), func()) { return nil, l.events[e] })
+				}
+				runB(name, "peer-close-read-then-calls-then-write", b, func(l *c11Link) (func(), func()) {
+					w := l.wevents["peer-close-read"]
+					if w == nil {
+						return nil, nil
+					}
+					var then func()
+					return func() { then = w() }, func() { then() }
+				})
+				_ = bi
+			}
+			// the blocked consumer is the client's own subscription: more events than it holds, then the loss
+			for _, e := range []string{"peer-close", "peer-close-write", "client-close"} {
+				e := e
+				runB(name, "events-then-"+e, "events", func(l *c11Link) (func(), func()) {
+					if e == "client-close" {
+						return nil, func() { go l.ep.Close() }
+					}
+					return nil, l.events[e]
+				})
+			}
 			// injected kinds
-			for _, k := range c11ErrKinds {
+			for ki, k := range c11ErrKinds {
 				k := k
+				runB(name, fmt.Sprintf("write[%s]-calls-then-read", k.name), busyKinds[(ki+rep)%2], func(l *c11Link) (func(), func()) {
+					if l.fc == nil {
+						return nil, nil
+					}
+					return func() { l.fc.killWrite(k.mk("write")) }, func() { l.fc.killRead(k.mk("read"), false) }
+				})
 				for _, once := range []bool{false, true} {
 					once := once
 					p := "persistent"
